@@ -428,15 +428,19 @@ static bool process_line(AsmState *state, const char *line, AsmResult *result) {
         }
 
         if (strcmp(directive, "string") == 0) {
-            char buf[4096];
+            /* the decoded string is never longer than its source text */
+            size_t cap = strlen(p) + 1;
+            char *buf = malloc(cap);
             uint32_t len;
-            if (!parse_quoted_string(&p, buf, sizeof(buf), &len)) {
+            if (!buf || !parse_quoted_string(&p, buf, cap, &len)) {
+                free(buf);
                 result->error = ASM_ERR_SYNTAX;
                 snprintf(result->message, sizeof(result->message),
                          "Expected quoted string after .string");
                 return false;
             }
             nvm_add_string(state->mod, buf, len);
+            free(buf);
             return true;
         }
 
